@@ -20,9 +20,12 @@ EVIDENCE = {
             'to 40 packets (all 256 header bytes are covered over a batch; the callbacks are plain functions, '
             'functools.partial objects, callable instances and bound methods) and lets scripted callbacks add / remove '
             'registrations (themselves, earlier and later ones) or raise while a packet is being dispatched; an independent '
-            'matcher and the registration time line decide must / may / must-not per (packet, registration).',
+            'matcher and the registration time line decide must / may / must-not per (packet, registration).  In a quarter '
+            'of the runs the link is torn down while the last packet is being dispatched (close_link called by one of its '
+            'callbacks, or a link error handled on another thread while a callback runs): the remaining callbacks still '
+            'get that packet.',
     'directed': 'two callbacks on one pattern where the first unregisters itself / the second / raises, at every list '
-                'position 0..3',
+                'position 0..3; tear-down by / during the callback at each of five positions',
     'real': ['_IncomingPacketHandler (real thread)', 'Crazyflie.add_port_callback/add_header_callback/remove_*',
              'Caller', 'CRTPPacket', 'the library subsystems\' own port callbacks'],
     'stub': ['SimLink inbox fed by the harness; the device is silent'],
@@ -96,8 +99,29 @@ def gen(seed):
         if rng.random() < 0.15:
             ops.append(['toggle', rng.randrange(nreg)])
         ops.append(['pk', pk[0], pk[1]])
+    concurrent = False
+    if rng.random() < 0.2:
+        # another thread registers / unregisters an extra callback while packets are being dispatched (as
+        # Param.get_default_value, persistent_* or TocFetcher.start do from application threads)
+        concurrent = True
+        pm = rng.choice([0xFF, 0x0F, 0x00])
+        cm = rng.choice([0xFF, 0x03, 0x00])
+        regs.append({'kind': rng.choice(['port', 'header']), 'port': rng.randrange(16) & pm if pm != 0xFF else rng.randrange(16),
+                     'pm': pm, 'ch': rng.randrange(4) & cm, 'cm': cm, 'cb': len(regs), 'initial': rng.random() < 0.5,
+                     'script': {}})
+        if regs[-1]['kind'] == 'port':
+            regs[-1].update({'pm': 0xFF, 'ch': 0, 'cm': 0})
+        e = len(regs) - 1
+        # scripts never touch the extra registration (their relative targets wrap around the list)
+        for i, r in enumerate(regs[:-1]):
+            for k in list(r['script']):
+                r['script'][k] = [a for a in r['script'][k] if not (
+                    (a[0] == 'remove-next' and (i + 1) % len(regs) == e) or (a[0] == 'remove-prev' and (i - 1) % len(regs) == e))]
+        pos = sorted(rng.randrange(len(ops) + 1) for _ in range(rng.choice([1, 3, 6])))
+        for off, at in enumerate(pos):
+            ops.insert(at + off, ['toggle-now', e])
     final_close = None
-    if regs and rng.random() < 0.25:
+    if regs and not concurrent and rng.random() < 0.25:
         # while the last packet is being dispatched one of its callbacks closes the link, or the driver thread reports a
         # link error: the remaining callbacks still get that packet
         i = rng.randrange(nreg)
@@ -105,8 +129,9 @@ def gen(seed):
         h = ((r['port'] & 0xF) << 4) | (rng.randrange(4) << 2) | (r['ch'] & 3)
         ops.append(['pk', h, [rng.randrange(256) for _ in range(rng.choice([0, 3, 30]))]])
         final_close = {'reg': i, 'how': rng.choice(['close_link', 'link_error'])}
-    return {'seed': seed, 'scenario': 'dispatch', 'knobs': knobs, 'regs': regs, 'ops': ops,
-            'all_cbs': rng.choice([0, 1, 2]), 'burst': rng.random() < 0.5, 'final_close': final_close}
+    return {'seed': seed, 'scenario': 'dispatch-concurrent' if concurrent else 'dispatch', 'knobs': knobs, 'regs': regs,
+            'ops': ops, 'all_cbs': rng.choice([0, 1, 2]), 'burst': concurrent or rng.random() < 0.5,
+            'final_close': final_close}
 
 
 def directed(tier):
@@ -206,6 +231,7 @@ def execute(ctx):
             else:
                 cf.add_header_callback(cbs[r.get('cb', i)], r['port'], r['ch'], r['pm'], r['cm'])
             active[i] = True
+            ctx.obs('reg-add', i, cur['pk'])
             if cur['pk'] is not None:
                 touched[i].add(cur['pk'])
 
@@ -218,6 +244,7 @@ def execute(ctx):
             else:
                 cf.remove_header_callback(cbs[r.get('cb', i)], r['port'], r['ch'], r['pm'], r['cm'])
             active[i] = False
+            ctx.obs('reg-remove', i, cur['pk'])
             if cur['pk'] is not None:
                 touched[i].add(cur['pk'])
 
@@ -320,6 +347,17 @@ def execute(ctx):
                 if not plan.get('burst'):
                     if not settle():
                         return
+            elif op[0] == 'toggle-now':
+                # no settling: the dispatcher may be in the middle of any of the packets fed so far
+                i = op[1]
+                first = max(seq['n'] - 1, 0)
+                if active[i]:
+                    do_remove(i)
+                else:
+                    do_add(i)
+                last = max(seq['n'] - 1, first)
+                dyn.append((i, first, last))
+                ctx.probe('registration changed by another thread during dispatch')
             else:
                 if not settle():
                     return
@@ -335,6 +373,7 @@ def execute(ctx):
     pkt_log = []
     order_fed = []
     seq = {'n': 0}
+    dyn = []                # (registration, first packet, last packet) of changes made by another thread, unsettled
 
     verdict = sim.run(scenario)
     if verdict[0] in ('deadlock', 'timeout', 'livelock'):
@@ -346,10 +385,10 @@ def execute(ctx):
                       'library thread %s died: %s' % (name, exc), tb)
     if st.get('alive') is False:
         ctx.violation('5', 'dispatcher-dead', 'the incoming packet handler is not alive at the end')
-    oracle(ctx, plan, regs, pkt_log, deliveries, all_deliv, touched, raised[0])
+    oracle(ctx, plan, regs, pkt_log, deliveries, all_deliv, touched, raised[0], dyn)
 
 
-def oracle(ctx, plan, regs, pkt_log, deliveries, all_deliv, touched, nraised):
+def oracle(ctx, plan, regs, pkt_log, deliveries, all_deliv, touched, nraised, dyn=()):
     """Per packet and per callback object: the number of deliveries must lie between the number of matching
     registrations of that callback that were registered before the dispatch began and not touched during it (must)
     and that number plus the matching registrations added/removed during the dispatch (may)."""
@@ -366,12 +405,22 @@ def oracle(ctx, plan, regs, pkt_log, deliveries, all_deliv, touched, nraised):
         return
     shared = len(set(cb_of)) < n
     fed = 0
+    dyn = list(dyn)
+    for (i, first, last) in dyn:
+        for q in range(first, last + 1):
+            touched[i].add(q)
     for op in plan['ops']:
         if op[0] == 'toggle':
             active[op[1]] = not active[op[1]]
             continue
+        if op[0] == 'toggle-now':
+            continue
         p = fed
         fed += 1
+        # changes made by another thread take effect (for certain) from the packet after the last one they overlapped
+        while dyn and dyn[0][2] < p:
+            active[dyn[0][0]] = not active[dyn[0][0]]
+            dyn.pop(0)
         h = op[1]
         port, channel = (h & 0xF0) >> 4, h & 3
         before = list(active)
